@@ -128,6 +128,7 @@ func (h *c14Hist) materialise(env *Env) (*simrt.History, []*c14Key) {
 	mount, exe := h.Mount0, h.Exe0
 	cwd := mount
 	content := map[string][]byte{}
+	symlinked := map[string]bool{} // closure files that are symbolic links at this point of the history
 	for _, f := range h.Files {
 		content[f.Rel] = f.Data
 	}
@@ -226,13 +227,15 @@ func (h *c14Hist) materialise(env *Env) (*simrt.History, []*c14Key) {
 				continue
 			}
 			content[s.Rel] = data
+			symlinked[s.Rel] = false // (the edit replaces whatever the name was by a regular file)
 			out.Steps = append(out.Steps, simrt.Step{Kind: "write", File: path.Join(mount, s.Rel), Data: data, KeepMtime: s.KeepMtime})
 			keys = append(keys, nil)
 		case "twin":
 			one, two := "tw/one/util.tsh", "tw/two/util.tsh"
-			if !h.Twins || sha(content[one]) != sha(content[two]) {
-				continue // (an edit made the two differ: nothing to link)
+			if !h.Twins || sha(content[one]) != sha(content[two]) || symlinked[one] {
+				continue // (an edit made the two differ, or "one" is a symbolic link at the moment: nothing to link)
 			}
+			symlinked[two] = false
 			if s.AsLink {
 				out.Steps = append(out.Steps, simrt.Step{Kind: "hardlink", File: path.Join(mount, two), Link: path.Join(mount, one)})
 			} else {
@@ -244,6 +247,7 @@ func (h *c14Hist) materialise(env *Env) (*simrt.History, []*c14Key) {
 			if !ok {
 				continue
 			}
+			symlinked[s.Rel] = s.AsLink
 			if s.AsLink {
 				store := "/store/c14/" + sha(data) + "-" + sha([]byte(s.Rel))
 				out.Steps = append(out.Steps, simrt.Step{Kind: "write", File: store, Data: data}, simrt.Step{Kind: "symlink", File: path.Join(mount, s.Rel), Link: store})
@@ -313,7 +317,7 @@ func c14Gen(r *Run, rng *gen.Rng, corpus []string) *c14Hist {
 }
 
 func c14GenOdd(r *Run, rng *gen.Rng, corpus []string, oddPool []string) *c14Hist {
-	gw := gen.NewWorld(rng.Sub(), gen.WorldOpts{MaxFiles: 4, StdPct: 6, AllowStd: true, Hostile: false, Decoys: rng.Range(1, 2), Corpus: corpus, CorpusPct: 10, SmallFeats: true})
+	gw := gen.NewWorld(rng.Sub(), gen.WorldOpts{MaxFiles: 4, StdPct: 10, AllowStd: true, Hostile: false, Decoys: rng.Range(1, 2), Corpus: corpus, CorpusPct: 10, SmallFeats: true})
 	h := &c14Hist{Versions: map[string][]string{}, Closures: map[string][]string{}, StdUsed: map[string][]string{}, Epoch: int64(rng.Intn(1 << 30))}
 	h.Progs = []string{gw.Main}
 	for k := rng.Range(1, 3); k > 0; k-- {
